@@ -527,6 +527,8 @@ class MP4Tags(DictProxy, Tags):
         """Update offset table in the specified atom."""
         if atom.offset > offset:
             atom.offset += delta
+        if atom.length < 16:
+            raise MP4MetadataError("truncated atom %r" % atom.name)
         fileobj.seek(atom.offset + 12)
         data = read_full(fileobj, atom.length - 12)
         fmt = fmt % cdata.uint_be(data[:4])
